@@ -63,6 +63,20 @@ def run(pid, tier, seed):
         if forbidden:
             ctx.proof['ok'] = False
             ctx.proof['error'] = 'forbidden constructs: ' + '; '.join(forbidden[:10])
+        if tier == 'thorough' and ctx.proof.get('ok'):
+            # independent re-check of the compiled property file and everything it depends on, and its axiom summary
+            import subprocess, re as _re
+            try:
+                p_ = subprocess.run(['timeout', '1500', 'coqchk', '-silent', '-o', '-R', '.', 'PDV', 'PDV.Props.%s' % pid], cwd=str(VERIF / 'coq'),
+                                    capture_output=True, text=True)
+                out_ = p_.stdout + p_.stderr
+                m_ = _re.search(r'\* Axioms:\s*(.*?)\n\s*\n', out_, flags=_re.S)
+                ctx.extra_cov['coqchk'] = {'exit': p_.returncode, 'axioms': (m_.group(1).strip() if m_ else 'not reported')[:600]}
+                ctx.log.append('coqchk Props/%s: exit %d, axioms: %s' % (pid, p_.returncode, ctx.extra_cov['coqchk']['axioms'][:80]))
+                if p_.returncode != 0:
+                    ctx.broken.append({'kind': 'proof', 'name': 'coqchk PDV.Props.%s' % pid, 'detail': out_[-1500:]})
+            except Exception as e_:  # noqa
+                ctx.broken.append({'kind': 'harness', 'name': 'coqchk', 'detail': str(e_)[:500]})
         for t, st in ctx.build['translators'].items():
             if not st['ok']:
                 ctx.broken.append({'kind': 'translator', 'name': t, 'detail': st['msg'][-1500:]})
